@@ -66,7 +66,7 @@ func AllStats() map[string]Stats {
 
 var (
 	SlowLogDir    = os.Getenv("GOSYM_SLOWLOG")
-	SlowThreshold = 2 * time.Second
+	SlowThreshold = 15 * time.Second
 	slowCtr       int64
 )
 
@@ -95,6 +95,9 @@ func (s *Solver) start() error {
 		cmd = exec.Command("z3-new", "-in", fmt.Sprintf("-t:%d", s.TimeoutMs))
 	case "cvc5":
 		cmd = exec.Command("cvc5", "--incremental", "--lang=smt2", "--produce-models", "--strings-exp", fmt.Sprintf("--tlimit-per=%d", s.TimeoutMs))
+	case "cvc5-int":
+		// bit-vectors solved as integers (keeps mod-2^k semantics): decides mul/div/rem-by-constant kernels quickly
+		cmd = exec.Command("cvc5", "--incremental", "--lang=smt2", "--produce-models", "--solve-bv-as-int=sum", fmt.Sprintf("--tlimit-per=%d", s.TimeoutMs))
 	default:
 		return fmt.Errorf("unknown backend %s", s.Backend)
 	}
@@ -112,7 +115,7 @@ func (s *Solver) start() error {
 	}
 	s.cmd, s.in, s.out = cmd, in, bufio.NewReaderSize(out, 1<<16)
 	pre := "(set-option :produce-models true)\n"
-	if s.Backend == "cvc5" {
+	if strings.HasPrefix(s.Backend, "cvc5") {
 		pre += "(set-logic ALL)\n"
 	}
 	_, err = io.WriteString(s.in, pre)
@@ -154,7 +157,10 @@ func (s *Solver) Check(asserts []*Term, want []*Term) (Result, Model, error) {
 		wantNames = append(wantNames, p.Emit(w))
 	}
 	var b strings.Builder
-	b.WriteString("(push 1)\n")
+	useReset := strings.HasPrefix(s.Backend, "z3")
+	if !useReset {
+		b.WriteString("(push 1)\n")
+	}
 	// stable order
 	var vn []string
 	for n := range p.Vars {
@@ -225,7 +231,7 @@ func (s *Solver) Check(asserts []*Term, want []*Term) (Result, Model, error) {
 	if hasErr {
 		atomic.AddInt64(&s.st.Errors, 1)
 		atomic.AddInt64(&s.st.Unknown, 1)
-		s.roundTrip("(pop 1)\n(echo \"POP\")\n", "POP")
+		s.endQuery(useReset)
 		return Unknown, nil, fmt.Errorf("solver error: %s", strings.Join(lines, " | "))
 	}
 	var model Model
@@ -240,14 +246,12 @@ func (s *Solver) Check(asserts []*Term, want []*Term) (Result, Model, error) {
 		txt := strings.Join(vl, "\n")
 		if strings.Contains(txt, "(error") {
 			atomic.AddInt64(&s.st.Errors, 1)
-			s.roundTrip("(pop 1)\n(echo \"POP\")\n", "POP")
+			s.endQuery(useReset)
 			return Unknown, nil, fmt.Errorf("get-value error: %s", txt)
 		}
 		model = parseModel(txt, want)
 	}
-	if _, err := s.roundTrip("(pop 1)\n(echo \"POP\")\n", "POP"); err != nil {
-		s.Close()
-	}
+	s.endQuery(useReset)
 	switch res {
 	case Sat:
 		atomic.AddInt64(&s.st.Sat, 1)
@@ -257,6 +261,23 @@ func (s *Solver) Check(asserts []*Term, want []*Term) (Result, Model, error) {
 		atomic.AddInt64(&s.st.Unknown, 1)
 	}
 	return res, model, nil
+}
+
+// endQuery discards the assertions of the last query. z3 is (reset) so that every check-sat runs z3's full
+// non-incremental tactic pipeline (its incremental core is much weaker on bit-vector arithmetic); cvc5 pops.
+func (s *Solver) endQuery(useReset bool) {
+	if s.cmd == nil {
+		return
+	}
+	var err error
+	if useReset {
+		_, err = s.roundTrip("(reset)\n(set-option :produce-models true)\n(echo \"POP\")\n", "POP")
+	} else {
+		_, err = s.roundTrip("(pop 1)\n(echo \"POP\")\n", "POP")
+	}
+	if err != nil {
+		s.Close()
+	}
 }
 
 func (s *Solver) roundTrip(q, marker string) ([]string, error) {
